@@ -2,6 +2,8 @@ import ShootVerif.Proofs.MapperPairs
 import ShootVerif.Proofs.MapperNames
 import ShootVerif.Proofs.MapperFlatten
 import ShootVerif.Proofs.MapperNameSpec
+import ShootVerif.Proofs.MapperHeadlines
+import ShootVerif.Proofs.MapperLeaves
 import ShootVerif.Gen.Facts
 /-!
 C05 — ToX/FromX copy exactly the matching field pairs, by the type rules.
@@ -125,68 +127,30 @@ theorem C05_pairs (inp : Input) (hs : inp.srcNew = false) (hd : inp.destNew = fa
     (c ∈ (plan inp).fromStmts ↔
       c.wr ∈ (plan inp).srcFields ∧ c.rd ∈ (plan inp).destFields ∧ inp.nm c.wr c.rd = true ∧ c.wr.isGet = false ∧
       c.wr.name ∉ inp.manualR ∧
-      pairStrat inp.conv (indexed inp.fns) .dest .src c.rd.ty c.wr.ty = some c.strat) := by
-  have hU : Unique (pairs inp.nm (plan inp).srcFields (plan inp).destFields) := by
-    simpa [uniquePairs, Unique] using hu
-  have hst := plan_plain_st inp hs hd
-  have hto := toC_char inp.conv inp.fns _ hU inp.manualW inp.manualR
-  have hfrom := fromC_char inp.conv inp.fns _ hU inp.manualW inp.manualR
-  -- plain sides have no setter pseudo-fields: the reading-side guard of the claim sites is vacuous
-  have hsrc : ∀ f ∈ (plan inp).srcFields, f.isSet = false := by
-    intro f hf
-    have : (plan inp).srcFields = sideFields inp.src false := by simp [plan, hs]
-    exact (sideFields_plain_flags inp.src f (this ▸ hf)).2
-  have hdst : ∀ f ∈ (plan inp).destFields, f.isSet = false := by
-    intro f hf
-    have : (plan inp).destFields = sideFields inp.dest false := by simp [plan, hd]
-    exact (sideFields_plain_flags inp.dest f (this ▸ hf)).2
-  constructor
-  · have key : c ∈ (plan inp).toStmts ↔ c ∈ (plan inp).st.toC := by
-      apply stmts_eq_claims
-      · intro c1 h1 c2 h2 e
-        rw [hst] at h1 h2
-        obtain ⟨p1, hp1, _, _, s1, hs1, rfl⟩ := (hto c1).mp h1
-        obtain ⟨p2, hp2, _, _, s2, hs2, rfl⟩ := (hto c2).mp h2
-        have : p1 = p2 := inj_of_map_nodup (fun x : Field × Field => x.1.name) _ hU.1 hp1 hp2 (by simpa using congrArg Field.name e)
-        subst this
-        rw [hs1] at hs2
-        cases hs2
-        rfl
-      · intro c1 h1
-        rw [hst] at h1
-        obtain ⟨p1, hp1, _, _, s1, _, rfl⟩ := (hto c1).mp h1
-        exact ((mem_pairs _ _ _ _ _).mp hp1).1
-    rw [key, hst, hto]
-    constructor
-    · rintro ⟨p, hp, hw, hg, s, hs', rfl⟩
-      have := (mem_pairs _ _ _ _ _).mp hp
-      rw [gd_plain (hsrc _ this.1)] at hs'
-      exact ⟨this.1, this.2.1, this.2.2, hg, hw, hs'⟩
-    · rintro ⟨h1, h2, h3, h4, hw, h5⟩
-      exact ⟨(c.rd, c.wr), (mem_pairs _ _ _ _ _).mpr ⟨h1, h2, h3⟩, hw, h4, c.strat, by rw [gd_plain (hsrc _ h1)]; exact h5, rfl⟩
-  · have key : c ∈ (plan inp).fromStmts ↔ c ∈ (plan inp).st.fromC := by
-      apply stmts_eq_claims
-      · intro c1 h1 c2 h2 e
-        rw [hst] at h1 h2
-        obtain ⟨p1, hp1, _, _, s1, hs1, rfl⟩ := (hfrom c1).mp h1
-        obtain ⟨p2, hp2, _, _, s2, hs2, rfl⟩ := (hfrom c2).mp h2
-        have : p1 = p2 := inj_of_map_nodup (fun x : Field × Field => x.2.name) _ hU.2 hp1 hp2 (by simpa using congrArg Field.name e)
-        subst this
-        rw [hs1] at hs2
-        cases hs2
-        rfl
-      · intro c1 h1
-        rw [hst] at h1
-        obtain ⟨p1, hp1, _, _, s1, _, rfl⟩ := (hfrom c1).mp h1
-        exact ((mem_pairs _ _ _ _ _).mp hp1).2.1
-    rw [key, hst, hfrom]
-    constructor
-    · rintro ⟨p, hp, hw, hg, s, hs', rfl⟩
-      have := (mem_pairs _ _ _ _ _).mp hp
-      rw [gd_plain (hdst _ this.2.1)] at hs'
-      exact ⟨this.1, this.2.1, this.2.2, hg, hw, hs'⟩
-    · rintro ⟨h1, h2, h3, h4, hw, h5⟩
-      exact ⟨(c.wr, c.rd), (mem_pairs _ _ _ _ _).mpr ⟨h1, h2, h3⟩, hw, h4, c.strat, by rw [gd_plain (hdst _ h2)]; exact h5, rfl⟩
+      pairStrat inp.conv (indexed inp.fns) .dest .src c.rd.ty c.wr.ty = some c.strat) :=
+  plan_pairs inp hs hd hu c
+
+/-- headline at the LEAVES, ToX: for every input satisfying the clauses of `PlainOk` (region WF of C05 — plain sides, names
+    resolve, no skip-shadow / embed-skip / ambiguous tag, unique name matching — plus: distinct leaves have distinct dotted
+    paths, names are ASCII without underscores) and every destination leaf `d`, the value `d` holds after `s.ToX()` on a fully
+    populated source — computed by EXECUTING the model's statement list with its guards and allocations — is the value the
+    property prescribes: zero when no participating source leaf matches by name with an applicable strategy, else the
+    value of the one that does, by that strategy. This is `obs = spec` per leaf, for all inputs; the driver's per-input
+    comparison of the `to:` keys is an instance of it. -/
+theorem C05_leaf_to (inp : Input) (H : PlainOk inp) (d : Leaf) (hd : d ∈ leavesOf inp.dest) :
+    optV (specTo inp d) = some (obsLeaf (execTo inp []) d) := to_leaf inp H d hd
+
+/-- the generator's field list of a plain side IS the set of participating leaves: every field is the record of a leaf
+    that Go selects by its bare name, is not tagged `map:"-"` and is exported, and resolves to it; every such leaf is a field -/
+theorem C05_fields_are_leaves (t : Tree) (hsel : wfSelectors t = true) (hsh : skipShadowT t = false) :
+    (∀ f ∈ sideFields t false, ∃ l ∈ leavesOf t, f = fieldOf l ∧ resolveField t f = some l ∧ partLeaf t l = true) ∧
+    (∀ l ∈ leavesOf t, partLeaf t l = true → fieldOf l ∈ sideFields t false) :=
+  ⟨fun f hf => field_is_leaf t hsel hsh f hf, fun l hl hp => leaf_is_field t hsel hsh l hl hp⟩
+
+/-- the output for two plain sides type-checks (as far as the model can tell) — from clauses about the input alone -/
+theorem C05_compiles (inp : Input) (hs : inp.srcNew = false) (hd : inp.destNew = false)
+    (h1 : wfSelectors inp.src = true) (h2 : wfSelectors inp.dest = true) (hsh : F_skipShadow inp = false) :
+    modelCompiles inp = true := modelCompiles_plain inp hs hd h1 h2 hsh
 
 /-- the strategy the loop computes is the one the property prescribes: the user's mapper method when
     one with exactly those types exists, else recursive mapping for struct types of the two packages
@@ -335,6 +299,27 @@ def exWF : Input :=
 example : exWF.srcNew = false ∧ exWF.destNew = false ∧ uniquePairs exWF = true ∧ region05 exWF = "WF" := by decide
 example : tagAmbiguous exWF.src = false ∧ (leavesOf exWF.src).all (fun s => asciiS (effName false s) && noUnderscore (effName false s)) = true ∧
     (leavesOf exWF.dest).all (fun d => asciiS d.decl.name && noUnderscore d.decl.name) = true := by decide
+/-- the hypotheses of the leaf-level theorem hold on the example -/
+example : PlainOk exWF where
+  hs := by decide
+  hd := by decide
+  hm := by decide
+  sel1 := by decide
+  sel2 := by decide
+  shadow := by decide
+  embed := by decide
+  tagAmb := by decide
+  uniq := by decide
+  keys1 := by decide
+  keys2 := by decide
+  srcNames := by
+    intro s hs
+    have : ∀ s ∈ leavesOf exWF.src, asciiS (effName false s) = true ∧ noUnderscore (effName false s) = true := by decide
+    exact ⟨(asciiS_iff _).mp (this s hs).1, (noUnderscore_iff _).mp (this s hs).2⟩
+  destNames := by
+    intro d hd
+    have : ∀ d ∈ leavesOf exWF.dest, asciiS d.decl.name = true ∧ noUnderscore d.decl.name = true := by decide
+    exact ⟨(asciiS_iff _).mp (this d hd).1, (noUnderscore_iff _).mp (this d hd).2⟩
 example : ((plan exWF).toStmts.map (fun c => (c.rd.name, c.wr.name, c.strat))) =
     [("ID", "Id", .func 0), ("Name", "Name", .assign), ("Sub", "Sub", .sub true false)] := by decide
 example : ((plan exWF).fromStmts.map (fun c => (c.rd.name, c.wr.name, c.strat))) =
